@@ -191,7 +191,7 @@ class PollRecvContract(Unit):
     )
 
     def shapes(self, tier):
-        return [c for c in CFGS if c['tm'] == 'dict' and not c['push'] and not (c['balance'] and c['K'] == 2)] if tier == 'quick' else [dict(c, K=k) for c in CFGS if c['tm'] == 'dict' and not c['push'] for k in (c['K'], 3) if k != 2 or c['K'] == 2]
+        return [c for c in CFGS if c['tm'] == 'dict' and not c['push'] and not (c['balance'] and c['K'] == 2)] if tier == 'quick' else [c for c in CFGS if c['tm'] == 'dict' and not c['push']]     # thorough adds the balanced two-client tables (3 clients: hours, not registered)
 
     def run(self, shape, dec):
         ex, W = setup(shape, dec)
